@@ -184,9 +184,9 @@ func (e *nilEngine) solve() {
 		}
 		e.retNN[f] = rn
 		e.retPair[f] = rp
-		// predicate candidates
-		if n == 1 {
-			if b, ok := f.Signature.Results().At(0).Type().Underlying().(*types.Basic); ok && b.Kind() == types.Bool {
+		// predicate candidates: the (last) result is a bool -- a plain predicate, or the ok of a (value, ok) helper
+		if n >= 1 {
+			if b, ok := f.Signature.Results().At(n-1).Type().Underlying().(*types.Basic); ok && b.Kind() == types.Bool {
 				var ps []int
 				for i, prm := range f.Params {
 					if isNillable(prm.Type()) {
@@ -208,6 +208,46 @@ func (e *nilEngine) solve() {
 						k := f.String() + "|" + prm.Name() + "." + fieldName(prm.Type(), fa.Field)
 						e.cellWant[k] = true
 						e.paramCell[k] = true
+					}
+				}
+			}
+		}
+	}
+	// a function that only hands its parameter on to a callee that relies on one of the parameter's cells needs the
+	// fact itself (at its own entry) to have it at the call
+	for changed, rounds := true, 0; changed && rounds < 6; rounds++ {
+		changed = false
+		for _, f := range e.all {
+			for _, b := range f.Blocks {
+				for _, in := range b.Instrs {
+					call, ok := in.(ssa.CallInstruction)
+					if !ok {
+						continue
+					}
+					g := call.Common().StaticCallee()
+					if g == nil || len(g.Blocks) == 0 {
+						continue
+					}
+					args := allArgs(call)
+					off := len(g.Params) - len(args)
+					for ai, a := range args {
+						prm, isPrm := a.(*ssa.Parameter)
+						if !isPrm || prm.Parent() != f || ai+off < 0 || ai+off >= len(g.Params) {
+							continue
+						}
+						gp := g.Params[ai+off]
+						pre := g.String() + "|" + gp.Name() + "."
+						for k := range e.cellWant {
+							if !strings.HasPrefix(k, pre) {
+								continue
+							}
+							nk := f.String() + "|" + prm.Name() + "." + strings.TrimPrefix(k, pre)
+							if !e.cellWant[nk] {
+								e.cellWant[nk] = true
+								e.paramCell[nk] = true
+								changed = true
+							}
+						}
 					}
 				}
 			}
@@ -363,8 +403,8 @@ func (e *nilEngine) solve() {
 						}
 					}
 					// predicate: returns true => params non-nil
-					if ps := newPred[f]; len(ps) > 0 {
-						rv := x.Results[0]
+					if ps := newPred[f]; len(ps) > 0 && len(x.Results) > 0 {
+						rv := x.Results[len(x.Results)-1]
 						var keep []int
 						for _, pi := range ps {
 							ok := false
@@ -477,6 +517,10 @@ func (e *nilEngine) trueImpliesNonNil(rv ssa.Value, prm *ssa.Parameter, at *ssa.
 				if nonNilCond(ce, prm) {
 					return true
 				}
+			}
+			// ... or by whatever the state at the return knows (a proto.HasExtension(p, ..) that held on the way)
+			if d == 0 && len(at.Instrs) > 0 && e.nonNil(prm, st, at.Instrs[len(at.Instrs)-1], 0) {
+				return true
 			}
 		}
 		return false
@@ -706,6 +750,16 @@ func (e *nilEngine) refine(cond ssa.Value, val bool, st fstate, at ssa.Instructi
 			// io.EOF comparison etc: nothing
 		}
 	case *ssa.Extract:
+		// the ok of a (value, ok) helper that answers true only for non-nil arguments
+		if call, isCall := x.Tuple.(*ssa.Call); isCall && val {
+			if cal := staticCallee(call); cal != nil && x.Index == cal.Signature.Results().Len()-1 {
+				for _, pi := range e.predNN[cal] {
+					if pi < len(call.Call.Args) {
+						e.assumeNonNil(call.Call.Args[pi], st)
+					}
+				}
+			}
+		}
 		if x.Index == 1 && val {
 			switch t := x.Tuple.(type) {
 			case *ssa.Lookup:
@@ -758,6 +812,10 @@ func (e *nilEngine) refine(cond ssa.Value, val bool, st fstate, at ssa.Instructi
 				m = mi.X
 			}
 			e.assumeNonNil(m, st)
+			if prm, isPrm := x.Call.Args[1].(*ssa.Parameter); isPrm {
+				// the extension is named by the caller (a generic accessor)
+				st["EXT:"+canon(m)+"|param:"+prm.Name()] = memFields(m)
+			}
 			if g := extGlobal(x.Call.Args[1]); g != nil {
 				st["EXT:"+canon(m)+"|"+g.Name()] = memFields(m)
 			}
@@ -820,6 +878,14 @@ func (e *nilEngine) refineShallow(cond ssa.Value, val bool, st fstate) {
 func (e *nilEngine) assumeNonNil(v ssa.Value, st fstate) {
 	st["NN:"+vid(v)] = nil
 	switch x := v.(type) {
+	case *ssa.Lookup:
+		// m[k] tested non-nil: another read of m[k] yields the same value until the map is updated with something
+		// that may be nil, or an entry is deleted
+		if !x.CommaOk {
+			if _, isMap := x.X.Type().Underlying().(*types.Map); isMap {
+				st["NNL:"+canon(x.X)+"|"+canon(x.Index)] = append(append(memFields(x.Index), memFields(x.X)...), "map:"+x.X.Type().Underlying().String()+"!upd")
+			}
+		}
 	case *ssa.UnOp:
 		if x.Op == token.MUL {
 			st["NNC:"+canon(x.X)] = append(memFields(x.X), "="+storeCell(x.X))
@@ -934,12 +1000,23 @@ func (e *nilEngine) transfer(in ssa.Instruction, st fstate) {
 	case *ssa.MapUpdate:
 		e.killClass(st, "map:"+x.Map.Type().Underlying().String()+"!del")
 		st["KEY:"+canon(x.Map)+"|"+canon(x.Key)] = append(memFields(x.Key), "map:"+x.Map.Type().Underlying().String()+"!del")
+		// what a lookup under some key yields: a non-nil value stored leaves every "m[k] is non-nil" fact standing (it
+		// hits another key or makes this one non-nil) and establishes the one for its own key
+		if isNillable(x.Value.Type()) {
+			upd := "map:" + x.Map.Type().Underlying().String() + "!upd"
+			if e.nonNil(x.Value, st, x, 0) {
+				st["NNL:"+canon(x.Map)+"|"+canon(x.Key)] = append(append(memFields(x.Key), memFields(x.Map)...), upd)
+			} else {
+				e.killClass(st, upd)
+			}
+		}
 	case ssa.CallInstruction:
 		cc := x.Common()
 		if b, ok := cc.Value.(*ssa.Builtin); ok {
 			switch b.Name() {
 			case "delete":
 				e.killClass(st, "map:"+cc.Args[0].Type().Underlying().String()+"!del")
+				e.killClass(st, "map:"+cc.Args[0].Type().Underlying().String()+"!upd")
 			case "copy":
 				if sl, ok := cc.Args[0].Type().Underlying().(*types.Slice); ok {
 					e.killClass(st, "elem:"+sl.Elem().String())
@@ -997,6 +1074,11 @@ func (e *nilEngine) nonNil(v ssa.Value, st fstate, at ssa.Instruction, d int) bo
 	}
 	if _, ok := st["NN:"+vid(v)]; ok {
 		return true
+	}
+	if lk, isLk := v.(*ssa.Lookup); isLk && !lk.CommaOk {
+		if _, ok := st["NNL:"+canon(lk.X)+"|"+canon(lk.Index)]; ok {
+			return true
+		}
 	}
 	if len(e.assumed) > 0 && v.Parent() != nil {
 		k := shortName(v.Parent()) + "|" + descr(v)
@@ -1337,6 +1419,30 @@ func (e *nilEngine) extGuarded(call *ssa.Call, asserted types.Type, st fstate) b
 		m = mi.X
 	}
 	g := extGlobal(call.Call.Args[1])
+	if prm, isPrm := call.Call.Args[1].(*ssa.Parameter); isPrm && g == nil {
+		// the extension descriptor is a parameter: guarded by HasExtension on the same message and parameter, and every
+		// call site of this (instantiated) function names an extension whose declared Go type is the asserted one
+		if _, ok := st["EXT:"+canon(m)+"|param:"+prm.Name()]; !ok {
+			return false
+		}
+		idx := paramIndex(prm)
+		callers := e.p.Callers(prm.Parent())
+		if idx < 0 || len(callers) == 0 || namedOf(asserted) == nil {
+			return false
+		}
+		got := "*" + namedOf(asserted).Obj().Name()
+		for _, ed := range callers {
+			args := ed.Site.Common().Args
+			if idx >= len(args) {
+				return false
+			}
+			cg := extGlobal(args[idx])
+			if cg == nil || e.extTypes[cg.Name()] != got {
+				return false
+			}
+		}
+		return true
+	}
 	if g == nil {
 		return false
 	}
@@ -1705,6 +1811,32 @@ func (e *nilEngine) freeVarCellNonNil(fv *ssa.FreeVar, d int) bool {
 	return ok
 }
 
+// mustCall: a call of regexp.MustCompile / template.Must, or of a module helper every return of which is such a call
+// (these panic rather than return nil).
+func mustCall(p *Program, call *ssa.Call, d int) bool {
+	switch calleeName(call) {
+	case "regexp.MustCompile", "text/template.Must":
+		return true
+	}
+	h := call.Call.StaticCallee()
+	if h == nil || call.Call.IsInvoke() || !p.isModuleFn(h) || len(h.Blocks) == 0 || d > 2 || h.Signature.Results().Len() != 1 {
+		return false
+	}
+	n := 0
+	for _, b := range h.Blocks {
+		ret, ok := b.Instrs[len(b.Instrs)-1].(*ssa.Return)
+		if !ok {
+			continue
+		}
+		n++
+		inner, isCall := ret.Results[0].(*ssa.Call)
+		if !isCall || !mustCall(p, inner, d+1) {
+			return false
+		}
+	}
+	return n > 0
+}
+
 // globalInitNonNil: a package-level variable assigned exactly once, in init, from a call that returns non-nil.
 func (e *nilEngine) globalInitNonNil(g *ssa.Global) bool {
 	pkg := g.Pkg
@@ -1728,8 +1860,7 @@ func (e *nilEngine) globalInitNonNil(g *ssa.Global) bool {
 				if fn == initFn {
 					switch v := st.Val.(type) {
 					case *ssa.Call:
-						switch calleeName(v) {
-						case "regexp.MustCompile", "text/template.Must":
+						if mustCall(e.p, v, 0) {
 							good++
 						}
 					case *ssa.MakeMap, *ssa.Alloc, *ssa.MakeInterface, *ssa.MakeClosure:
